@@ -379,9 +379,11 @@ impl StdBroker {
                 }
                 f(Basic(basic::AMQPMethod::CancelOk(basic::CancelOk { consumer_tag: c.consumer_tag.clone() })))
             }
-            Basic(basic::AMQPMethod::Get(_)) => {
+            Basic(basic::AMQPMethod::Get(g)) => {
                 let s = self.next_seq(chan);
-                match self.get_bodies.pop_front() {
+                // queue "msgq" always holds a message whose body names the request it answers
+                let body = if g.queue == "msgq" { Some(format!("body-{}-{}", chan, s).into_bytes()) } else { self.get_bodies.pop_front() };
+                match body {
                     None => {
                         self.replies.push((chan, s, "get-empty".to_string()));
                         f(Basic(basic::AMQPMethod::GetEmpty(basic::GetEmpty { cluster_id: String::new() })))
